@@ -194,6 +194,10 @@ class G:
                 v = self.fresh("k")
                 defs.append([S("define"), S(v), self.int_(2, env2)])
                 env2 = env2 + [(v, "int")]
+        if ps and r.random() < 0.08:
+            # an internal definition named like one of the procedure's own parameters (its initialiser does not mention that name): it shadows the parameter
+            v = r.choice(ps)
+            defs.append([S("define"), S(v), self.int_(2, [(n, t) for n, t in env2 if n != v])])
         if r.random() < 0.3:
             # two mutually referring internal procedures (visible to the whole body)
             h1, h2, x = self.fresh("h"), self.fresh("h"), self.fresh("x")
